@@ -534,6 +534,15 @@ def check_sens(live, op, step, out, stats, log, prefix):
     by_state = bool(op.get("by_state"))
     want_f, want_J = ref_aug(ref, z, t, th, by_state=by_state, iv=iv)
     label = "IV" if iv else ("by_state" if by_state else "by_param")
+    pre_J = None
+    if op.get("jac_first"):
+        try:
+            pre_J = core.num_array(ode.ode_and_sensitivityIV_jacobian(z, t) if iv else ode.ode_and_sensitivity_jacobian(z, t, by_state))
+        except core.RunTimeout:
+            raise
+        except Exception as e:
+            out.append(core.crash_failure(prefix, e, step, "augmented jacobian (%s), asked for before the right-hand side" % label))
+            return
     try:
         if iv:
             got_f = core.num_array(ode.ode_and_sensitivityIV(z, t))
@@ -546,11 +555,34 @@ def check_sens(live, op, step, out, stats, log, prefix):
         return
     stats["sens_evals"] = stats.get("sens_evals", 0) + 1
     log.append(["sens", step, label, core.digest(got_f.tolist(), 10)])
-    msg = cmp_arrays(got_f, want_f, 1e-9, 1e-11)
+    # scale-aware comparison: the sensitivity blocks are J*S + G (and J*S0); when the sensitivities are small the
+    # J*S part must still be there.  Per entry: 1e-9 relative, plus an absolute slack of 1e-11 x max(scale of the
+    # sensitivities supplied, size of the S-independent part of that entry) for cancellation inside J*S
+    n_ = ref.n
+    sig = float(np.abs(z[n_:]).max()) if len(z) > n_ else 1.0
+    z0 = z.copy()
+    z0[n_:] = 0.0
+    want_f0, want_J0 = ref_aug(ref, z0, t, th, by_state=by_state, iv=iv)
+    msg = None
+    if got_f.shape != want_f.shape:
+        msg = "shape %s, expected %s" % (got_f.shape, want_f.shape)
+    elif not np.all(np.isfinite(got_f)):
+        msg = "non-finite values %s" % (got_f.tolist(),)
+    else:
+        tol_f = 1e-9 * np.maximum(np.abs(got_f), np.abs(want_f)) + 1e-11 * np.maximum(min(sig, 1.0), np.abs(want_f0)) + 1e-300
+        err_f = np.abs(got_f - want_f)
+        if np.any(err_f > tol_f):
+            k = int(np.argmax(err_f - tol_f))
+            msg = "entry %d: %r, expected %r (J*S + G with max|S| = %.3g; the S-independent part of this entry is %r)" % (
+                k, float(got_f[k]), float(want_f[k]), sig, float(want_f0[k]))
+    if sig < 1e-3:
+        stats["small_sensitivity_points"] = stats.get("small_sensitivity_points", 0) + 1
     if msg:
         out.append(fail("%s.rhs.%s" % (prefix, label), step, "augmented right-hand side: %s" % msg))
     try:
-        if iv:
+        if pre_J is not None:
+            got_J = pre_J
+        elif iv:
             got_J = core.num_array(ode.ode_and_sensitivityIV_jacobian(z, t))
         else:
             got_J = core.num_array(ode.ode_and_sensitivity_jacobian(z, t, by_state))
